@@ -41,7 +41,7 @@ def g_scripts(ctx, focus, name, cfg, ncalls, start_connected, cap=None, every=1)
         if n % every or (cap and len(items) >= cap):
             continue
         calls, drift = L.run_script(hist, dev, board, start_connected)
-        script = [[h["m"], list(h["a"]), h["s"], [dict((k, v) for k, v in e.items() if k != "r") for e in h["env"]]] for h in hist]
+        script = [[h["m"], list(h["a"]), h["s"], [dict((k, v) for k, v in e.items() if k != "r") for e in h["env"]]] for h in hist]      # incl. <replug> entries
         ctx.count((focus, repr(script), dev))
         items.append((calls, dev, board, script))
         events.append(L.event_of(calls, dev, board, focus))
@@ -161,6 +161,9 @@ def run_script_with_board(hist, dev, board, pyb, start_connected=True):
     calls = []
     try:
         for k, h in enumerate(hist):
+            if h["m"] == "<replug>":
+                sess.dev = h["s"]
+                continue
             state["env"] = [dict(e) for e in h["env"]]
             calls.append(sess.run_call(h["m"], h["a"], h["s"], ws=k + len(h["s"])))
     finally:
